@@ -67,16 +67,17 @@ Qed.
 (* ---- request validation ------------------------------------------------------ *)
 
 (* The exact set of JSON values accepted as a request. *)
-Definition request_shape (j : json) (rq : request) : Prop :=
+Definition request_shape (pok : params -> bool) (j : json) (rq : request) : Prop :=
   exists o,
     j = JObj o /\
     lookup k_jsonrpc o = Some (JStr s_2_0) /\
     lookup k_method o = Some (JStr (r_method rq)) /\
     params_of o = Some (r_params rq) /\
     forallb (fun kv => known_member (fst kv)) o = true /\
+    pok (r_params rq) = true /\
     id_of o = Some (r_id rq).
 
-Lemma validate_spec j rq : validate j = VOk rq <-> request_shape j rq.
+Lemma validate_spec pok j rq : validate pok j = VOk rq <-> request_shape pok j rq.
 Proof.
   split.
   - destruct j as [| | | | |l|o]; try discriminate. cbn [validate].
@@ -85,35 +86,39 @@ Proof.
     destruct (lookup k_method o) as [[| | | |m| |]|] eqn:Em; try discriminate.
     destruct (params_of o) as [p|] eqn:Ep; [|discriminate].
     destruct (forallb (fun kv => known_member (fst kv)) o) eqn:Ek; cbn [negb]; [|discriminate].
+    destruct (pok p) eqn:Epok; cbn [negb]; [|discriminate].
     destruct (id_of o) as [i|] eqn:Ei; [|discriminate].
     intros H. injection H as <-. exists o. cbn [r_method r_params r_id].
     apply str_eqb_eq in Ev. subst ver. repeat split; assumption.
-  - intros (o & -> & Hj & Hm & Hp & Hk & Hi). cbn [validate].
+  - intros (o & -> & Hj & Hm & Hp & Hk & Hpok & Hi). cbn [validate].
     rewrite Hj. replace (str_eqb s_2_0 s_2_0) with true by reflexivity. cbn [negb].
-    rewrite Hm, Hp, Hk. cbn [negb]. rewrite Hi. destruct rq. reflexivity.
+    rewrite Hm, Hp, Hk. cbn [negb]. rewrite Hpok. cbn [negb]. rewrite Hi. destruct rq. reflexivity.
 Qed.
 
-Lemma validate_not_object j : (forall o, j <> JObj o) -> forall rq, validate j <> VOk rq.
+Lemma validate_not_object pok j : (forall o, j <> JObj o) -> forall rq, validate pok j <> VOk rq.
 Proof. intros H rq E. apply validate_spec in E. destruct E as (o & -> & _). exact (H o eq_refl). Qed.
 
-Lemma validate_unknown_member o k x :
-  In (k, x) o -> known_member k = false -> forall rq, validate (JObj o) <> VOk rq.
+Lemma validate_unknown_member pok o k x :
+  In (k, x) o -> known_member k = false -> forall rq, validate pok (JObj o) <> VOk rq.
 Proof.
-  intros Hin Hk rq E. apply validate_spec in E. destruct E as (o' & Ho & _ & _ & _ & Hall & _).
+  intros Hin Hk rq E. apply validate_spec in E. destruct E as (o' & Ho & _ & _ & _ & Hall & _ & _).
   injection Ho as <-. rewrite forallb_forall in Hall. specialize (Hall _ Hin). cbn in Hall. congruence.
 Qed.
 
-Lemma validate_id_array o l : lookup k_id o = Some (JArr l) -> forall rq, validate (JObj o) <> VOk rq.
+Lemma validate_id_array pok o l : lookup k_id o = Some (JArr l) -> forall rq, validate pok (JObj o) <> VOk rq.
 Proof.
-  intros Hid rq E. apply validate_spec in E. destruct E as (o' & Ho & _ & _ & _ & _ & Hi).
+  intros Hid rq E. apply validate_spec in E. destruct E as (o' & Ho & _ & _ & _ & _ & _ & Hi).
   injection Ho as <-. unfold id_of in Hi. rewrite Hid in Hi. discriminate.
 Qed.
 
-Lemma validate_id_object o l : lookup k_id o = Some (JObj l) -> forall rq, validate (JObj o) <> VOk rq.
+Lemma validate_id_object pok o l : lookup k_id o = Some (JObj l) -> forall rq, validate pok (JObj o) <> VOk rq.
 Proof.
-  intros Hid rq E. apply validate_spec in E. destruct E as (o' & Ho & _ & _ & _ & _ & Hi).
+  intros Hid rq E. apply validate_spec in E. destruct E as (o' & Ho & _ & _ & _ & _ & _ & Hi).
   injection Ho as <-. unfold id_of in Hi. rewrite Hid in Hi. discriminate.
 Qed.
+
+Lemma validate_bad_params pok j rq : validate pok j = VOk rq -> pok (r_params rq) = true.
+Proof. intros E. apply validate_spec in E. destruct E as (o & _ & _ & _ & _ & _ & H & _). exact H. Qed.
 
 (* id echo: a string, integer or finite-float id is written back unchanged *)
 Definition echoable (idj : json) : bool :=
@@ -123,18 +128,18 @@ Definition echoable (idj : json) : bool :=
   | _ => false
   end.
 
-Lemma id_echo o rq idj :
-  validate (JObj o) = VOk rq -> lookup k_id o = Some idj -> echoable idj = true ->
+Lemma id_echo pok o rq idj :
+  validate pok (JObj o) = VOk rq -> lookup k_id o = Some idj -> echoable idj = true ->
   wire_id (r_id rq) = idj /\ r_id rq <> None.
 Proof.
-  intros E Hid He. apply validate_spec in E. destruct E as (o' & Ho & _ & _ & _ & _ & Hi).
+  intros E Hid He. apply validate_spec in E. destruct E as (o' & Ho & _ & _ & _ & _ & _ & Hi).
   injection Ho as <-. unfold id_of in Hi. rewrite Hid in Hi.
   destruct idj; try discriminate; injection Hi as <-; cbn [wire_id]; try (split; [reflexivity|discriminate]).
   cbn [echoable] in He. rewrite He. split; [reflexivity|discriminate].
 Qed.
 
 Lemma id_echo_refuted :
-  exists o rq idj, validate (JObj o) = VOk rq /\ lookup k_id o = Some idj /\
+  exists o rq idj, validate (fun _ => true) (JObj o) = VOk rq /\ lookup k_id o = Some idj /\
                    (exists t, idj = JFloat t) /\ wire_id (r_id rq) <> idj.
 Proof.
   exists [(k_jsonrpc, JStr s_2_0); (k_method, JStr (lit "o.pub")); (k_id, JFloat (lit "inf"))].
@@ -200,14 +205,15 @@ Lemma no_dot_rejected ms p : ~ In DOT p -> mount_callable ms p = false -> get_me
 Proof. intros Hn Hc. unfold get_method. rewrite Hc, (rsplit_dot_none p Hn). reflexivity. Qed.
 
 Section Wrapper.
+  Variable pok : params -> bool.
   Variable ms : mounts.
   Variable call : log -> entry -> params -> call_result.
 
   (* ---- single requests ------------------------------------------------------- *)
 
-  Lemma handle_single_no_escape l j : forall e, fst (handle_single fixed ms call l j) <> SEscape e.
+  Lemma handle_single_no_escape l j : forall e, fst (handle_single fixed pok ms call l j) <> SEscape e.
   Proof.
-    intros e. unfold handle_single. destruct (validate j) as [rq| |]; cbn; try discriminate.
+    intros e. unfold handle_single. destruct (validate _ j) as [rq| |]; cbn; try discriminate.
     unfold answer.
     destruct (get_method ms (r_method rq)); [|destruct (r_id rq); cbn; discriminate..].
     destruct (call l e0 (r_params rq)); destruct (r_id rq); cbn; discriminate.
@@ -215,10 +221,10 @@ Section Wrapper.
 
   (* the log only grows, by public entries *)
   Lemma handle_single_log v l j :
-    snd (handle_single v ms call l j) = l \/
-    exists e, snd (handle_single v ms call l j) = l ++ [e] /\ public_entry_b ms e = true.
+    snd (handle_single v pok ms call l j) = l \/
+    exists e, snd (handle_single v pok ms call l j) = l ++ [e] /\ public_entry_b ms e = true.
   Proof.
-    unfold handle_single. destruct (validate j) as [rq| |]; [|left; reflexivity|].
+    unfold handle_single. destruct (validate _ j) as [rq| |]; [|left; reflexivity|].
     - destruct (get_method ms (r_method rq)) eqn:Eg; [|left; reflexivity..].
       right. exists e. split; [|exact (get_method_public _ _ _ Eg)].
       destruct (call l e (r_params rq)); reflexivity.
@@ -226,10 +232,10 @@ Section Wrapper.
   Qed.
 
   Lemma handle_single_invalid l j :
-    (forall rq, validate j <> VOk rq) ->
-    handle_single fixed ms call l j = (SResp (mkResp None (PError E_INVALID)), l).
+    (forall rq, validate pok j <> VOk rq) ->
+    handle_single fixed pok ms call l j = (SResp (mkResp None (PError E_INVALID)), l).
   Proof.
-    intros H. unfold handle_single. destruct (validate j) as [rq| |]; [exfalso; exact (H rq eq_refl)|reflexivity..].
+    intros H. unfold handle_single. destruct (validate _ j) as [rq| |]; [exfalso; exact (H rq eq_refl)|reflexivity..].
   Qed.
 
   Definition payload_of (cr : call_result) : payload :=
@@ -242,8 +248,8 @@ Section Wrapper.
 
   (* what a structurally valid request does, as one equation *)
   Lemma handle_single_valid v l j rq :
-    validate j = VOk rq ->
-    handle_single v ms call l j =
+    validate (vpok v pok) j = VOk rq ->
+    handle_single v pok ms call l j =
     match get_method ms (r_method rq) with
     | TNotFound => (answer rq (PError E_NOT_FOUND), l)
     | TPlain => (answer rq (PError E_PARAMS), l)
@@ -255,9 +261,9 @@ Section Wrapper.
   Qed.
 
   Lemma not_found_invokes_nothing v l j rq :
-    validate j = VOk rq -> get_method ms (r_method rq) <> TCall (EMount (r_method rq)) ->
+    validate (vpok v pok) j = VOk rq -> get_method ms (r_method rq) <> TCall (EMount (r_method rq)) ->
     (forall e, get_method ms (r_method rq) <> TCall e) ->
-    snd (handle_single v ms call l j) = l.
+    snd (handle_single v pok ms call l j) = l.
   Proof.
     intros E _ H. rewrite (handle_single_valid v l j rq E).
     destruct (get_method ms (r_method rq)) eqn:Eg; try reflexivity. exfalso. exact (H e eq_refl).
@@ -286,21 +292,21 @@ Section Wrapper.
     | None => match rs_payload r with PResult _ => false | _ => true end
     end.
 
-  Lemma validate_id_finite j rq :
-    validate j = VOk rq -> elem_ids_finite j = true ->
+  Lemma validate_id_finite pk j rq :
+    validate pk j = VOk rq -> elem_ids_finite j = true ->
     match r_id rq with Some (IdFloat t) => tok_finite t = true | _ => True end.
   Proof.
-    intros E Hf. apply validate_spec in E. destruct E as (o & -> & _ & _ & _ & _ & Hi).
+    intros E Hf. apply validate_spec in E. destruct E as (o & -> & _ & _ & _ & _ & _ & Hi).
     cbn [elem_ids_finite] in Hf. unfold id_of in Hi.
     destruct (lookup k_id o) as [[| b | z | t | s | a | d]|]; try discriminate;
       injection Hi as <-; try exact I. exact Hf.
   Qed.
 
   Lemma handle_single_good v l j r :
-    elem_ids_finite j = true -> fst (handle_single v ms call l j) = SResp r -> resp_good r = true.
+    elem_ids_finite j = true -> fst (handle_single v pok ms call l j) = SResp r -> resp_good r = true.
   Proof.
-    intros Hf. unfold handle_single. destruct (validate j) as [rq| |] eqn:E.
-    - pose proof (validate_id_finite j rq E Hf) as Hid. unfold answer.
+    intros Hf. unfold handle_single. destruct (validate _ j) as [rq| |] eqn:E.
+    - pose proof (validate_id_finite _ j rq E Hf) as Hid. unfold answer.
       destruct (get_method ms (r_method rq)).
       1: destruct (call l e (r_params rq)).
       all: destruct (r_id rq) as [[s|z|t]|]; cbn; intros H; try discriminate; injection H as <-;
@@ -321,42 +327,42 @@ Section Wrapper.
 
   (* ---- batches -------------------------------------------------------------------- *)
 
-  Lemma run_batch_no_escape js : forall l e, fst (run_batch fixed ms call l js) <> PRaise e.
+  Lemma run_batch_no_escape js : forall l e, fst (run_batch fixed pok ms call l js) <> PRaise e.
   Proof.
     induction js as [|j t IH]; intros l e; [cbn; discriminate|].
     cbn [run_batch]. pose proof (handle_single_no_escape l j) as Hs.
-    destruct (handle_single fixed ms call l j) as [[|r|e'] l'] eqn:E; cbn [fst] in Hs.
+    destruct (handle_single fixed pok ms call l j) as [[|r|e'] l'] eqn:E; cbn [fst] in Hs.
     - apply IH.
-    - specialize (IH l' e). destruct (run_batch fixed ms call l' t) as [[rs|e''] l'']; cbn in *; congruence.
+    - specialize (IH l' e). destruct (run_batch fixed pok ms call l' t) as [[rs|e''] l'']; cbn in *; congruence.
     - exfalso. exact (Hs e' eq_refl).
   Qed.
 
   Lemma run_batch_log v js : forall l,
     Forall (fun e => public_entry_b ms e = true) l ->
-    Forall (fun e => public_entry_b ms e = true) (snd (run_batch v ms call l js)).
+    Forall (fun e => public_entry_b ms e = true) (snd (run_batch v pok ms call l js)).
   Proof.
     induction js as [|j t IH]; intros l Hl; [exact Hl|].
     cbn [run_batch].
-    assert (Hl' : Forall (fun e => public_entry_b ms e = true) (snd (handle_single v ms call l j))).
+    assert (Hl' : Forall (fun e => public_entry_b ms e = true) (snd (handle_single v pok ms call l j))).
     { destruct (handle_single_log v l j) as [->|(e & -> & He)]; [exact Hl|].
       apply Forall_app. split; [exact Hl|]. constructor; [exact He|constructor]. }
-    destruct (handle_single v ms call l j) as [[|r|e'] l'] eqn:E; cbn [snd] in Hl'.
+    destruct (handle_single v pok ms call l j) as [[|r|e'] l'] eqn:E; cbn [snd] in Hl'.
     - apply IH. exact Hl'.
-    - specialize (IH l' Hl'). destruct (run_batch v ms call l' t) as [[rs|e''] l'']; exact IH.
+    - specialize (IH l' Hl'). destruct (run_batch v pok ms call l' t) as [[rs|e''] l'']; exact IH.
     - exact Hl'.
   Qed.
 
   Lemma run_batch_good v js : forall l rs,
-    forallb elem_ids_finite js = true -> fst (run_batch v ms call l js) = POk rs ->
+    forallb elem_ids_finite js = true -> fst (run_batch v pok ms call l js) = POk rs ->
     forallb resp_good rs = true.
   Proof.
     induction js as [|j t IH]; intros l rs Hf H.
     - cbn in H. injection H as <-. reflexivity.
     - cbn [forallb] in Hf. apply andb_true_iff in Hf. destruct Hf as [Hj Ht].
       cbn [run_batch] in H. pose proof (handle_single_good v l j) as Hg.
-      destruct (handle_single v ms call l j) as [[|r|e'] l'] eqn:E; cbn [fst] in Hg.
+      destruct (handle_single v pok ms call l j) as [[|r|e'] l'] eqn:E; cbn [fst] in Hg.
       + exact (IH l' rs Ht H).
-      + destruct (run_batch v ms call l' t) as [[rs'|e''] l''] eqn:Eb; cbn [fst] in H; [|discriminate].
+      + destruct (run_batch v pok ms call l' t) as [[rs'|e''] l''] eqn:Eb; cbn [fst] in H; [|discriminate].
         injection H as <-. cbn [forallb]. rewrite (Hg r Hj eq_refl). cbn [andb].
         apply (IH l' rs' Ht). rewrite Eb. reflexivity.
       + discriminate.
@@ -364,7 +370,7 @@ Section Wrapper.
 
   (* which elements are answered, and with which id *)
   Definition is_notification (j : json) : bool :=
-    match validate j with
+    match validate pok j with
     | VOk rq => match r_id rq with None => true | Some _ => false end
     | _ => false
     end.
@@ -372,7 +378,7 @@ Section Wrapper.
   Definition answered (j : json) : bool := negb (is_notification j).
 
   Definition expected_id (j : json) : json :=
-    match validate j with
+    match validate pok j with
     | VOk rq => wire_id (r_id rq)
     | _ => JNull
     end.
@@ -380,14 +386,15 @@ Section Wrapper.
   Definition resp_id_json (r : resp) : json := wire_id (rs_id r).
 
   Lemma handle_single_shape l j :
-    match fst (handle_single fixed ms call l j) with
+    match fst (handle_single fixed pok ms call l j) with
     | SNone => is_notification j = true
     | SResp r => is_notification j = false /\ resp_id_json r = expected_id j
     | SEscape _ => False
     end.
   Proof.
     unfold handle_single, is_notification, expected_id, resp_id_json.
-    destruct (validate j) as [rq| |]; cbn; try (split; reflexivity).
+    change (vpok fixed pok) with pok.
+    destruct (validate pok j) as [rq| |]; cbn; try (split; reflexivity).
     unfold answer. destruct (get_method ms (r_method rq)).
     1: destruct (call l e (r_params rq)).
     all: destruct (r_id rq); cbn; try reflexivity; split; reflexivity.
@@ -395,17 +402,17 @@ Section Wrapper.
 
   (* T3: one response per non-notification element, in request order *)
   Lemma run_batch_shape js : forall l,
-    exists rs, fst (run_batch fixed ms call l js) = POk rs /\
+    exists rs, fst (run_batch fixed pok ms call l js) = POk rs /\
                map resp_id_json rs = map expected_id (filter answered js).
   Proof.
     induction js as [|j t IH]; intros l.
     - exists []. split; reflexivity.
     - cbn [run_batch filter]. pose proof (handle_single_shape l j) as Hs. unfold answered at 1.
-      destruct (handle_single fixed ms call l j) as [[|r|e'] l'] eqn:E; cbn [fst] in Hs.
+      destruct (handle_single fixed pok ms call l j) as [[|r|e'] l'] eqn:E; cbn [fst] in Hs.
       + rewrite Hs. cbn [negb]. apply IH.
       + destruct Hs as [Hn Hid]. rewrite Hn. cbn [negb].
         destruct (IH l') as (rs & Hrs & Hmap).
-        destruct (run_batch fixed ms call l' t) as [[rs'|e''] l''] eqn:Eb; cbn [fst] in Hrs; [|discriminate].
+        destruct (run_batch fixed pok ms call l' t) as [[rs'|e''] l''] eqn:Eb; cbn [fst] in Hrs; [|discriminate].
         injection Hrs as ->. exists (r :: rs). split; [reflexivity|].
         cbn [map]. rewrite Hid, Hmap. reflexivity.
       + contradiction.
@@ -420,69 +427,69 @@ Section Wrapper.
     - rewrite andb_false_r. discriminate.
   Qed.
 
-  Lemma handle_data_no_escape j : forall e, fst (handle_data fixed ms call j) <> PRaise e.
+  Lemma handle_data_no_escape j : forall e, fst (handle_data fixed pok ms call j) <> PRaise e.
   Proof.
     intros e. unfold handle_data. destruct j as [| | | | |[|j t]|o];
       try (pose proof (handle_single_no_escape [] ltac:(first [exact JNull|idtac])) as Hs).
     all: try (cbn; discriminate).
     all: try match goal with
-      | |- context [handle_single fixed ms call [] ?x] =>
+      | |- context [handle_single fixed pok ms call [] ?x] =>
           pose proof (handle_single_no_escape [] x) as Hs';
-          destruct (handle_single fixed ms call [] x) as [[|r|e'] l']; cbn in *;
+          destruct (handle_single fixed pok ms call [] x) as [[|r|e'] l']; cbn in *;
           try discriminate; exfalso; exact (Hs' e' eq_refl)
       end.
     pose proof (run_batch_no_escape (j :: t) [] e) as Hb.
-    destruct (run_batch fixed ms call [] (j :: t)) as [[[|r rs]|e'] l']; cbn in *; congruence.
+    destruct (run_batch fixed pok ms call [] (j :: t)) as [[[|r rs]|e'] l']; cbn in *; congruence.
   Qed.
 
   (* T1 *)
-  Lemma total_lemma i : forall e, fst (handle_json fixed ms call i) <> OEscaped e.
+  Lemma total_lemma i : forall e, fst (handle_json fixed pok ms call i) <> OEscaped e.
   Proof.
     intros e. destruct i as [|j]; [cbn; discriminate|].
     cbn [handle_json]. pose proof (handle_data_no_escape j) as Hd.
-    destruct (handle_data fixed ms call j) as [[d|e'] l]; cbn [fst] in *.
+    destruct (handle_data fixed pok ms call j) as [[d|e'] l]; cbn [fst] in *.
     - apply dump_fixed_not_escaped.
     - exfalso. exact (Hd e' eq_refl).
   Qed.
 
   Lemma endpoint_total_lemma utf8_ok i :
-    fst (endpoint fixed ms call false utf8_ok i) <> EpTransportError.
+    fst (endpoint fixed pok ms call false utf8_ok i) <> EpTransportError.
   Proof.
     unfold endpoint. cbn [v_decode_in_handler fixed andb].
     pose proof (total_lemma i) as Ht.
-    destruct (handle_json fixed ms call i) as [[|j|e] l]; cbn in *; try discriminate.
+    destruct (handle_json fixed pok ms call i) as [[|j|e] l]; cbn in *; try discriminate.
     exfalso. exact (Ht e eq_refl).
   Qed.
 
   (* T4 *)
   Lemma only_public_lemma v i :
-    Forall (fun e => public_entry_b ms e = true) (snd (handle_json v ms call i)).
+    Forall (fun e => public_entry_b ms e = true) (snd (handle_json v pok ms call i)).
   Proof.
     destruct i as [|j]; [constructor|].
     cbn [handle_json].
-    assert (H : Forall (fun e => public_entry_b ms e = true) (snd (handle_data v ms call j))).
+    assert (H : Forall (fun e => public_entry_b ms e = true) (snd (handle_data v pok ms call j))).
     { unfold handle_data.
-      assert (Hsingle : forall x, Forall (fun e => public_entry_b ms e = true) (snd (handle_single v ms call [] x))).
+      assert (Hsingle : forall x, Forall (fun e => public_entry_b ms e = true) (snd (handle_single v pok ms call [] x))).
       { intros x. destruct (handle_single_log v [] x) as [->|(e & -> & He)]; [constructor|].
         cbn. constructor; [exact He|constructor]. }
       destruct j as [| | | | |[|j t]|o];
-        try (match goal with |- context [handle_single v ms call [] ?x] =>
-               specialize (Hsingle x); destruct (handle_single v ms call [] x) as [[|r|e'] l']; exact Hsingle end).
+        try (match goal with |- context [handle_single v pok ms call [] ?x] =>
+               specialize (Hsingle x); destruct (handle_single v pok ms call [] x) as [[|r|e'] l']; exact Hsingle end).
       - constructor.
       - pose proof (run_batch_log v (j :: t) [] (Forall_nil _)) as Hb.
-        destruct (run_batch v ms call [] (j :: t)) as [[[|r rs]|e'] l']; exact Hb. }
-    destruct (handle_data v ms call j) as [[d|e'] l]; exact H.
+        destruct (run_batch v pok ms call [] (j :: t)) as [[[|r rs]|e'] l']; exact Hb. }
+    destruct (handle_data v pok ms call j) as [[d|e'] l]; exact H.
   Qed.
 
   (* T2 *)
   Definition error_doc (i : option rid) (c : Z) : json := wire (mkResp i (PError c)).
 
-  Lemma parse_error_lemma : handle_json fixed ms call ParseFail = (OBytes (error_doc None E_PARSE), []).
+  Lemma parse_error_lemma : handle_json fixed pok ms call ParseFail = (OBytes (error_doc None E_PARSE), []).
   Proof. reflexivity. Qed.
 
   Lemma invalid_request_lemma j :
-    (forall l, j <> JArr l) -> (forall rq, validate j <> VOk rq) ->
-    handle_json fixed ms call (Parsed j) = (OBytes (error_doc None E_INVALID), []).
+    (forall l, j <> JArr l) -> (forall rq, validate pok j <> VOk rq) ->
+    handle_json fixed pok ms call (Parsed j) = (OBytes (error_doc None E_INVALID), []).
   Proof.
     intros Hna Hv. cbn [handle_json]. unfold handle_data.
     destruct j as [| | | | |l|o]; try (rewrite (handle_single_invalid [] _ Hv); reflexivity).
@@ -490,13 +497,13 @@ Section Wrapper.
   Qed.
 
   Lemma empty_batch_lemma :
-    handle_json fixed ms call (Parsed (JArr [])) = (OBytes (error_doc None E_INVALID), []).
+    handle_json fixed pok ms call (Parsed (JArr [])) = (OBytes (error_doc None E_INVALID), []).
   Proof. reflexivity. Qed.
 
   (* a structurally valid single request with an id *)
   Lemma request_lemma j rq i :
-    validate j = VOk rq -> r_id rq = Some i ->
-    handle_json fixed ms call (Parsed j) =
+    validate pok j = VOk rq -> r_id rq = Some i ->
+    handle_json fixed pok ms call (Parsed j) =
     match get_method ms (r_method rq) with
     | TNotFound => (OBytes (error_doc (Some i) E_NOT_FOUND), [])
     | TPlain => (OBytes (error_doc (Some i) E_PARAMS), [])
@@ -511,8 +518,8 @@ Section Wrapper.
   Qed.
 
   Lemma notification_lemma j rq :
-    validate j = VOk rq -> r_id rq = None ->
-    fst (handle_json fixed ms call (Parsed j)) = ONothing.
+    validate pok j = VOk rq -> r_id rq = None ->
+    fst (handle_json fixed pok ms call (Parsed j)) = ONothing.
   Proof.
     intros E Hi. pose proof E as E'. apply validate_spec in E'. destruct E' as (o & -> & _).
     cbn [handle_json handle_data]. rewrite (handle_single_valid fixed [] (JObj o) rq E).
@@ -525,7 +532,7 @@ Section Wrapper.
   (* T3 at the level of handle_json *)
   Lemma batch_lemma j t :
     let js := j :: t in
-    match fst (handle_json fixed ms call (Parsed (JArr js))) with
+    match fst (handle_json fixed pok ms call (Parsed (JArr js))) with
     | ONothing => filter answered js = []
     | OBytes (JArr docs) =>
         exists rs, docs = map wire rs /\ rs <> [] /\
@@ -536,7 +543,7 @@ Section Wrapper.
     cbn zeta. cbn [handle_json handle_data].
     destruct (run_batch_shape (j :: t) []) as (rs & Hrs & Hmap).
     remember (filter answered (j :: t)) as fl eqn:Hfl. clear Hfl.
-    destruct (run_batch fixed ms call [] (j :: t)) as [[rs'|e'] l'] eqn:Eb; cbn [fst] in Hrs; [|discriminate].
+    destruct (run_batch fixed pok ms call [] (j :: t)) as [[rs'|e'] l'] eqn:Eb; cbn [fst] in Hrs; [|discriminate].
     injection Hrs as ->. destruct rs as [|r rs].
     - cbn [fst dump]. destruct fl; [reflexivity|discriminate].
     - cbn [fst dump]. rewrite andb_false_r. exists (r :: rs). repeat split; [discriminate|exact Hmap].
@@ -545,8 +552,8 @@ Section Wrapper.
   (* conformance to the response grammar, for inputs whose float ids are finite *)
   Lemma handle_json_single j :
     (forall a, j <> JArr a) ->
-    handle_json fixed ms call (Parsed j) =
-    match handle_single fixed ms call [] j with
+    handle_json fixed pok ms call (Parsed j) =
+    match handle_single fixed pok ms call [] j with
     | (SEscape e, l) => (OEscaped e, l)
     | (SNone, l) => (ONothing, l)
     | (SResp r, l) => (OBytes (wire r), l)
@@ -554,8 +561,8 @@ Section Wrapper.
   Proof.
     intros Hna. cbn [handle_json]. unfold handle_data.
     destruct j as [| | | | |a|o]; try (exfalso; exact (Hna a eq_refl));
-      match goal with |- context [handle_single fixed ms call [] ?x] =>
-        destruct (handle_single fixed ms call [] x) as [[|r|e'] l'] end;
+      match goal with |- context [handle_single fixed pok ms call [] ?x] =>
+        destruct (handle_single fixed pok ms call [] x) as [[|r|e'] l'] end;
       cbn [dump]; rewrite ?andb_false_r; reflexivity.
   Qed.
 
@@ -570,20 +577,20 @@ Section Wrapper.
   Qed.
 
   Lemma conformant_partial_lemma i j l :
-    input_ids_finite i = true -> handle_json fixed ms call i = (OBytes j, l) -> document_ok_b j = true.
+    input_ids_finite i = true -> handle_json fixed pok ms call i = (OBytes j, l) -> document_ok_b j = true.
   Proof.
     intros Hf H. destruct i as [|x].
     - cbn in H. injection H as <- _. reflexivity.
     - assert (Hs : (forall a, x <> JArr a) -> elem_ids_finite x = true -> document_ok_b j = true).
       { intros Hna Hx. rewrite (handle_json_single x Hna) in H.
         pose proof (handle_single_good fixed [] x) as Hg.
-        destruct (handle_single fixed ms call [] x) as [[|r|e'] l0]; cbn [fst] in Hg; try discriminate.
+        destruct (handle_single fixed pok ms call [] x) as [[|r|e'] l0]; cbn [fst] in Hg; try discriminate.
         injection H as <- _. rewrite document_wire. apply wire_ok. exact (Hg r Hx eq_refl). }
       destruct x as [| | | | |[|y t]|o]; try (apply Hs; [intros a; discriminate|exact Hf]).
       + cbn in H. injection H as <- _. reflexivity.
       + cbn [handle_json handle_data] in H. cbn [input_ids_finite] in Hf.
         pose proof (run_batch_good fixed (y :: t) []) as Hg.
-        destruct (run_batch fixed ms call [] (y :: t)) as [[[|r rs]|e'] l0]; cbn [fst] in Hg; try discriminate.
+        destruct (run_batch fixed pok ms call [] (y :: t)) as [[[|r rs]|e'] l0]; cbn [fst] in Hg; try discriminate.
         cbn [dump] in H. rewrite andb_false_r in H. injection H as <- _.
         specialize (Hg (r :: rs) Hf eq_refl).
         change (forallb response_ok_b (map wire (r :: rs)) = true). apply forallb_wire. exact Hg.
@@ -607,48 +614,48 @@ Definition req (m : string) (id : option json) : json :=
         ++ match id with Some i => [(k_id, i)] | None => [] end).
 
 Lemma total_refuted_id_array :
-  exists ms call i, fst (handle_json pre_fix ms call i) = OEscaped EValidation.
-Proof. exists demo_mounts, demo_call, (Parsed (req "o.pub" (Some (JArr [])))). reflexivity. Qed.
+  exists pok ms call i, fst (handle_json pre_fix pok ms call i) = OEscaped EValidation.
+Proof. exists (fun _ => true), demo_mounts, demo_call, (Parsed (req "o.pub" (Some (JArr [])))). reflexivity. Qed.
 
 Lemma total_refuted_unknown_member :
-  exists ms call i, fst (handle_json pre_fix ms call i) = OEscaped EValidation.
+  exists pok ms call i, fst (handle_json pre_fix pok ms call i) = OEscaped EValidation.
 Proof.
-  exists demo_mounts, demo_call,
+  exists (fun _ => true), demo_mounts, demo_call,
     (Parsed (JArr [req "o.pub" (Some (JInt 1));
                    JObj [(k_jsonrpc, JStr s_2_0); (k_method, JStr (lit "o.pub")); (lit "x", JInt 1)]])).
   reflexivity.
 Qed.
 
 Lemma total_refuted_unserializable :
-  exists ms call i, fst (handle_json pre_fix ms call i) = OEscaped ESerialization.
-Proof. exists demo_mounts, demo_call, (Parsed (req "o.uns" (Some (JInt 1)))). reflexivity. Qed.
+  exists pok ms call i, fst (handle_json pre_fix pok ms call i) = OEscaped ESerialization.
+Proof. exists (fun _ => true), demo_mounts, demo_call, (Parsed (req "o.uns" (Some (JInt 1)))). reflexivity. Qed.
 
 Lemma endpoint_total_refuted :
-  exists ms call i, fst (endpoint pre_fix ms call false false i) = EpTransportError.
-Proof. exists demo_mounts, demo_call, ParseFail. reflexivity. Qed.
+  exists pok ms call i, fst (endpoint pre_fix pok ms call false false i) = EpTransportError.
+Proof. exists (fun _ => true), demo_mounts, demo_call, ParseFail. reflexivity. Qed.
 
 (* still true of the current code: a non-finite float id (1e400, NaN) is answered by a
    success response whose id is null, which the response grammar forbids *)
 Lemma conformant_refuted :
-  exists ms call i j l, handle_json fixed ms call i = (OBytes j, l) /\ document_ok_b j = false.
+  exists pok ms call i j l, handle_json fixed pok ms call i = (OBytes j, l) /\ document_ok_b j = false.
 Proof.
-  exists demo_mounts, demo_call, (Parsed (req "o.pub" (Some (JFloat (lit "nan"))))).
+  exists (fun _ => true), demo_mounts, demo_call, (Parsed (req "o.pub" (Some (JFloat (lit "nan"))))).
   eexists. eexists. split; [vm_compute; reflexivity|]. vm_compute. reflexivity.
 Qed.
 
 (* ---- non-vacuity ---------------------------------------------------------------------- *)
 
 Example nv_request :
-  exists rq, validate (req "o.pub" (Some (JStr (lit "a")))) = VOk rq /\ r_id rq = Some (IdStr (lit "a")) /\
+  exists rq, validate (fun _ => true) (req "o.pub" (Some (JStr (lit "a")))) = VOk rq /\ r_id rq = Some (IdStr (lit "a")) /\
              get_method demo_mounts (r_method rq) = TCall (EAttr (lit "o") (lit "pub")).
 Proof. eexists. split; [vm_compute; reflexivity|]. split; reflexivity. Qed.
 
 Example nv_notification :
-  exists rq, validate (req "o.pub" None) = VOk rq /\ r_id rq = None /\
-             snd (handle_json fixed demo_mounts demo_call (Parsed (req "o.pub" None))) = [EAttr (lit "o") (lit "pub")].
+  exists rq, validate (fun _ => true) (req "o.pub" None) = VOk rq /\ r_id rq = None /\
+             snd (handle_json fixed (fun _ => true) demo_mounts demo_call (Parsed (req "o.pub" None))) = [EAttr (lit "o") (lit "pub")].
 Proof. eexists. split; [vm_compute; reflexivity|]. split; reflexivity. Qed.
 
-Example nv_invalid : forall rq, validate (req "o.pub" (Some (JObj []))) <> VOk rq.
+Example nv_invalid : forall rq, validate (fun _ => true) (req "o.pub" (Some (JObj []))) <> VOk rq.
 Proof. intros rq. vm_compute. discriminate. Qed.
 
 Example nv_private :
@@ -658,7 +665,7 @@ Example nv_private :
 Proof. repeat split. Qed.
 
 Example nv_batch :
-  fst (handle_json fixed demo_mounts demo_call
+  fst (handle_json fixed (fun _ => true) demo_mounts demo_call
          (Parsed (JArr [req "o.pub" (Some (JInt 1)); req "o.pub" None; JInt 5; req "o.uns" (Some (JStr (lit "b")));
                         req "o.pub" (Some (JInt 2))])))
   = OBytes (JArr [wire (mkResp (Some (IdInt 1)) (PResult (JInt 0)));
@@ -669,4 +676,10 @@ Proof. vm_compute. reflexivity. Qed.
 
 Example nv_finite :
   input_ids_finite (Parsed (JArr [req "o.pub" (Some (JFloat (lit "1.5"))); req "o.pub" (Some (JInt 2))])) = true.
+Proof. reflexivity. Qed.
+
+(* a request whose params do not decode (a tagged object that is not a valid model) *)
+Example nv_bad_params :
+  handle_json fixed (fun _ => false) demo_mounts demo_call (Parsed (req "o.pub" (Some (JInt 1))))
+  = (OBytes (error_doc None E_INVALID), []).
 Proof. reflexivity. Qed.
